@@ -16,7 +16,7 @@ def naming(specs, groups, tf, fasta_like=False, cuts=None, ends=None, fr=0, pref
 
 
 def naming_rest(specs, groups, tf, fasta_like=False, cuts=None, ends=None, fr=0):
-    """everything C10 demands EXCEPT 'unlocs numbered from longest to shortest'"""
+    """everything C10 demands EXCEPT the numbering of unlocs (_unloc_1..m without holes, longest first)"""
     model_setup(specs, groups, tf, fr, cuts, ends)
     inp, lay = mk_input(specs, fasta_like)
     prtxt = mk_pretext(groups, tf, fr)
@@ -69,9 +69,21 @@ def conditions(tier):
     q.append(("two_chromosomes_unloc_haplotig_with_rounding", _m(n, s5[:4], ((0,) * 4, [(0, 0, 0), (0, 1, 0), (1, 2, 0), (2, 3, 0)]),
                                                                   [P, U, P, ("Haplotig",)], (1, -1, 1, 1)), n, 900,
               "2 chromosomes, 1 unloc, 1 haplotig with symbolic end rounding of every piece"))
+    # one cut: the right half of the cut scaffold is an Unloc, followed by a whole-scaffold Unloc
+    qknown = {}
+    plan1 = ((1, 0), [(0, 0, 0), (0, 0, 1), (0, 1, 0)])
+    b1 = "input F G F cut once: left half Painted, right half Painted+Unloc, then a whole scaffold Painted+Unloc, all in one Pretext scaffold"
+    n = "cut1_unloc_rest"
+    q.append(("one_cut_unloc_half_all_but_unloc_order", _m(n, [("in1", "FGF"), ("in2", "F")], plan1, [P, U, U], (1, 1, 1), body="naming_rest"), n, 900, b1 + "; all clauses except the unloc numbering (holes / length order)"))
+    n = "cut1_unloc_full"
+    q.append(("one_cut_unloc_half_full_oracle", _m(n, [("in1", "FGF"), ("in2", "F")], plan1, [P, U, U], (1, 1, 1)), n, 900, b1 + "; full oracle incl. unloc numbering (KNOWN to fail)"))
+    qknown["one_cut_unloc_half_full_oracle"] = "known:C10-unloc-rank-before-cut"
+    n = "cut1_haplotig"
+    q.append(("one_cut_haplotig_half_then_another_haplotig", _m(n, [("in1", "FGF"), ("in2", "F")], ((1, 0), [(0, 0, 0), (1, 0, 1), (2, 1, 0)]), [P, ("Haplotig",), ("Haplotig",)], (1, 1, 1)), n, 900,
+              "input F G F cut once: left half Painted, right half tagged Haplotig (it may lose its only contig to the left piece), then a whole-scaffold Haplotig: H_1..H_n without holes, longest first"))
     src_q = HEAD + "".join(x[1] for x in q)
     for (nm, _, fn, to, bound) in q:
-        out.append(Cond(nm, src_q, fn, to, bound, replay="replay_model", encodes=ENC))
+        out.append(Cond(nm, src_q, fn, to, bound, replay="replay_model", encodes=ENC, expect=qknown.get(nm, "confirm")))
 
     # cut templates: a tagged piece may lose all its rows (mostly over a gap) - names must still have no holes
     known = {}
@@ -85,10 +97,10 @@ def conditions(tier):
                 # unloc length order; the full oracle on the same template is expected to fail
                 n = f"cut_{tag}_rest_" + sfx((), ps3)
                 t.append((f"two_cuts_middle_piece_{tag}_all_but_unloc_order_" + sfx((), ps3),
-                          _m(n, [("in1", "FGF"), ("in2", "F")], plan, [P, tg, P, tg], ps3, body="naming_rest"), n, 9000, bound + "; all clauses except the unloc length order"))
+                          _m(n, [("in1", "FGF"), ("in2", "F")], plan, [P, tg, P, tg], ps3, body="naming_rest"), n, 9000, bound + "; all clauses except the unloc numbering (holes / length order)"))
                 n = f"cut_{tag}_" + sfx((), ps3)
                 nm = f"two_cuts_middle_piece_{tag}_" + sfx((), ps3)
-                t.append((nm, _m(n, [("in1", "FGF"), ("in2", "F")], plan, [P, tg, P, tg], ps3), n, 9000, bound + "; full oracle incl. unloc length order (KNOWN to fail)"))
+                t.append((nm, _m(n, [("in1", "FGF"), ("in2", "F")], plan, [P, tg, P, tg], ps3), n, 9000, bound + "; full oracle incl. unloc numbering (KNOWN to fail)"))
                 known[nm] = "known:C10-unloc-rank-before-cut"
             else:
                 n = f"cut_{tag}_" + sfx((), ps3)
